@@ -587,6 +587,10 @@ def e1_trees(ctx):
         rdescr.append(("reference", c.pattern, c.subs, c.allpaths, sorted(exp)))
         ctx.case(("ref", c.pattern, tuple(sorted(c.subs.items())), tuple(c.allpaths)), bool(exp))
         ctx.count("ref_expected_differs_from_recorded", int(exp != c.rec))
+        # the component-wise formulation of the reference must agree with the one the theorems use
+        rchecks.append(f"chk_ref_agree false {coq_str(c.pattern)} {coq_subs(c.subs)} {coq_lstr(c.allpaths)}"
+                       f" && chk_ref_agree true {coq_str(c.pattern)} {coq_subs(c.subs)} {coq_lstr(c.allpaths)}")
+        rdescr.append(("reference-formulations", c.pattern, c.subs, c.allpaths))
     ctx.count("E1_ref_checks", len(rchecks))
     bad = common.run_cases(ctx, "ref", HEADER, rchecks, chunk=150)
     ctx.traces_validated += len(rchecks) - len(bad)
